@@ -29,6 +29,7 @@ type Job struct {
 	MapOrder bool                   `json:"map_order,omitempty"` // fork over map iteration orders
 	Vectors  []map[string]uint64    `json:"vectors,omitempty"`   // concrete mode: one run per vector
 	Concrete bool                   `json:"concrete,omitempty"`
+	ResetMode bool                  `json:"reset_mode,omitempty"` // pose every query from scratch instead of push/pop
 	Expect   string                 `json:"expect,omitempty"` // informational (e.g. "sat" for reachability twins)
 	Witnesses int                   `json:"witnesses,omitempty"` // collect a model for up to this many completed paths
 	Extra    map[string]interface{} `json:"extra,omitempty"`
@@ -118,8 +119,11 @@ type Engine struct {
 	symBranches int
 	decisions   int
 	globals     map[*ssa.Global]*Obj
-	inited      map[*ssa.Package]bool
-	initBroken  map[*ssa.Package]string
+	pristine       map[*ssa.Global]*Obj
+	pristineInited map[*ssa.Package]bool
+	inPristine     bool
+	copyMap        map[*Obj]*Obj
+	copyMaps       map[*MapObj]*MapObj
 	stack       []string
 	objID       int
 	opaqueT     types.Type
@@ -127,6 +131,8 @@ type Engine struct {
 	ctxKeys     int
 	defs        int
 	callDepth   int
+	initCost    map[string]int
+	prof        map[*ssa.Function]int
 	onceDone    map[string]bool
 	locks       map[string]int
 	ctxT, logT  types.Type
@@ -305,22 +311,16 @@ func (e *Engine) concretize(i Int, what string) uint64 {
 			e.assertTerm("(not (= " + t + " " + bvLit(d.V, i.W) + "))")
 			continue
 		}
-		e.sol.raw("(push)")
 		nm := fmt.Sprintf("cs_%d", e.nsym)
 		e.nsym++
-		e.sol.raw(fmt.Sprintf("(declare-const %s (_ BitVec %d))", nm, i.W))
-		e.sol.raw("(assert (= " + nm + " " + t + "))")
-		r := e.sol.check()
+		r := e.sol.checkWith(fmt.Sprintf("(declare-const %s (_ BitVec %d))", nm, i.W), "(= "+nm+" "+t+")")
 		if r == "unsat" {
-			e.sol.raw("(pop)")
 			panic(abortPath{"case split exhausted"})
 		}
 		if r != "sat" {
-			e.sol.raw("(pop)")
 			panic(inconclusive{"case split: solver " + r + " for " + what})
 		}
 		v := e.sol.values([]string{nm})[nm]
-		e.sol.raw("(pop)")
 		sib := append(append([]Dec{}, e.taken...), Dec{V: v, Yes: false})
 		e.spawn(sib)
 		e.logDec(Dec{V: v, Yes: true})
@@ -400,9 +400,13 @@ func (e *Engine) doAssert(c Bool, label string) {
 		e.viols = append(e.viols, v)
 		return
 	}
-	e.sol.raw("(push)")
-	e.sol.raw("(assert (not " + c.T + "))")
-	r := e.sol.check()
+	r := e.sol.checkWith("(not " + c.T + ")")
+	if r == "unknown" {
+		r = e.sol.retryStandalone("(not "+c.T+")", 4*e.cfg.TimeoutMs/1000)
+		if r == "sat" {
+			r = "unknown" // no model available from the standalone run: stay inconclusive rather than guess
+		}
+	}
 	switch r {
 	case "unsat":
 		e.discharged++
@@ -414,7 +418,6 @@ func (e *Engine) doAssert(c Bool, label string) {
 	default:
 		e.incon = append(e.incon, "assert "+label+": "+r)
 	}
-	e.sol.raw("(pop)")
 	// continue under the assumption that the assertion holds
 	e.assertTerm(c.T)
 	if r == "sat" {
@@ -470,8 +473,13 @@ func (e *Engine) resetPath() {
 	e.nameCount = map[string]int{}
 	e.chosen = map[string]uint64{}
 	e.globals = map[*ssa.Global]*Obj{}
-	e.inited = map[*ssa.Package]bool{}
-	e.initBroken = map[*ssa.Package]string{}
+	e.copyMap = map[*Obj]*Obj{}
+	e.copyMaps = map[*MapObj]*MapObj{}
+	e.inPristine = false
+	if e.pristine == nil {
+		e.pristine = map[*ssa.Global]*Obj{}
+		e.pristineInited = map[*ssa.Package]bool{}
+	}
 	e.stack = e.stack[:0]
 	e.funcs = map[string]int{}
 	e.stubs = map[string]int{}
@@ -489,9 +497,11 @@ func (e *Engine) resetPath() {
 	e.defs = 0
 	e.nsym = 0
 	e.callDepth = 0
-	e.objID = 0
 	e.onceDone = nil
 	e.locks = nil
+	if profiling && e.prof == nil {
+		e.prof = map[*ssa.Function]int{}
+	}
 }
 
 // runPath executes one path; returns outcome string
@@ -504,7 +514,7 @@ func (e *Engine) runPath(it workItem) {
 	e.resetPath()
 	q0, s0, u0, k0, d0 := e.sol.queries, e.sol.sat, e.sol.unsat, e.sol.unknown, e.sol.dur
 	if !e.concrete {
-		e.sol.beginPath()
+		e.sol.beginPath(!e.job.ResetMode)
 	}
 	outcome := "done"
 	var detail string
@@ -524,6 +534,8 @@ func (e *Engine) runPath(it workItem) {
 					outcome, detail = "blocked", r.msg
 				case inconclusive:
 					outcome, detail = "inconclusive", r.msg
+				case engineBug:
+					outcome, detail = "engine-error", r.msg+" @ "+e.stackStr()
 				default:
 					outcome, detail = "engine-error", fmt.Sprint(r)+" @ "+e.stackStr()
 				}
@@ -592,6 +604,16 @@ func (e *Engine) runPath(it workItem) {
 	for k, v := range e.stubs {
 		res.Stubs[k] += v
 	}
+	if profiling {
+		for f, n := range e.prof {
+			res.Stubs["<prof> "+f.String()] += n
+		}
+		e.prof = map[*ssa.Function]int{}
+	}
+	for k, v := range e.initCost {
+		res.Stubs["<init instrs> "+k] += v
+	}
+	e.initCost = nil
 	for k, v := range e.assumes {
 		res.Assumes[k] += v
 	}
@@ -601,7 +623,7 @@ func (e *Engine) runPath(it workItem) {
 		l[1] += v[1]
 		res.Labels[k] = l
 	}
-	if outcome == "done" || outcome == "panic" {
+	if outcome == "done" || outcome == "panic" || outcome == "pruned" {
 		for k, v := range e.covers {
 			res.Covers[k] += v
 		}
